@@ -251,3 +251,122 @@ pub open spec fn ends_from(inp: Seq<Range<usize>>, out: Seq<Range<usize>>) -> bo
 pub assume_specification<Idx: Clone> [<Range<Idx> as Clone>::clone] (r: &Range<Idx>) -> (c: Range<Idx>)
     ensures c == *r;
 } // verus!
+verus! {
+// ------------------------------------------------------------------ String::replace_range, Vec::extend (assumed std contracts)
+pub uninterp spec fn rb_start<R>(r: R) -> int;
+pub uninterp spec fn rb_end<R>(r: R) -> int;
+#[verifier::external_body]
+pub broadcast proof fn axiom_rb_range_start(r: Range<usize>)
+    ensures #[trigger] rb_start(r) == r.start as int {}
+#[verifier::external_body]
+pub broadcast proof fn axiom_rb_range_end(r: Range<usize>)
+    ensures #[trigger] rb_end(r) == r.end as int {}
+
+pub assume_specification<R: std::ops::RangeBounds<usize>> [String::replace_range::<R>] (s: &mut String, range: R, replace_with: &str)
+    requires
+        0 <= rb_start(range) <= rb_end(range) <= encode_utf8(old(s)@).len(),
+        is_char_boundary(encode_utf8(old(s)@), rb_start(range)),
+        is_char_boundary(encode_utf8(old(s)@), rb_end(range)),
+    ensures
+        encode_utf8(final(s)@) == encode_utf8(old(s)@).subrange(0, rb_start(range)) + replace_with.spec_bytes() + encode_utf8(old(s)@).subrange(rb_end(range), encode_utf8(old(s)@).len() as int),
+;
+
+pub uninterp spec fn into_seq<I, T>(i: I) -> Seq<T>;
+#[verifier::external_body]
+pub broadcast proof fn axiom_into_seq_vec<T>(v: Vec<T>)
+    ensures #[trigger] into_seq::<Vec<T>, T>(v) == v@ {}
+pub assume_specification<T, A: std::alloc::Allocator, I: IntoIterator<Item = T>> [<Vec<T, A> as Extend<T>>::extend::<I>] (v: &mut Vec<T, A>, iter: I)
+    ensures final(v)@ == old(v)@ + into_seq::<I, T>(iter),
+;
+
+// ------------------------------------------------------------------ deleting ranges from a byte string
+/// ranges that String::replace_range may delete one by one from the back: in bounds, on character
+/// boundaries, ascending and non-overlapping
+pub open spec fn wf_ranges(r: Seq<Range<usize>>, b: Seq<u8>) -> bool {
+    &&& forall|i: int| 0 <= i < r.len() ==> (#[trigger] r[i]).start <= r[i].end <= b.len()
+    &&& forall|i: int| 0 <= i < r.len() ==> is_char_boundary(b, (#[trigger] r[i]).start as int) && is_char_boundary(b, r[i].end as int)
+    &&& forall|i: int, j: int| 0 <= i < j < r.len() ==> (#[trigger] r[i]).end <= (#[trigger] r[j]).start
+}
+
+/// bytes left after deleting ranges k.. (from the back, exactly as the reverse replace_range loops do)
+pub open spec fn del_from(b: Seq<u8>, r: Seq<Range<usize>>, k: int) -> Seq<u8>
+    decreases r.len() - k
+{
+    if k >= r.len() || k < 0 { b } else {
+        let rest = del_from(b, r, k + 1);
+        rest.subrange(0, r[k].start as int) + rest.subrange(r[k].end as int, rest.len() as int)
+    }
+}
+
+/// Deleting a boundary-delimited slice of valid UTF-8 leaves valid UTF-8, and positions <= lo keep their boundary status.
+pub proof fn lemma_cut_valid(r: Seq<u8>, lo: int, hi: int)
+    requires valid_utf8(r), 0 <= lo <= hi <= r.len(), cb(r, lo), cb(r, hi),
+    ensures
+        valid_utf8(r.subrange(0, lo) + r.subrange(hi, r.len() as int)),
+        forall|p: int| 0 <= p <= lo && cb(r, p) ==> #[trigger] cb(r.subrange(0, lo) + r.subrange(hi, r.len() as int), p),
+{
+    let a = r.subrange(0, lo);
+    let c = r.subrange(hi, r.len() as int);
+    valid_utf8_split(r, lo);
+    valid_utf8_split(r, hi);
+    valid_utf8_concat(a, c);
+    let out = a + c;
+    assert forall|p: int| 0 <= p <= lo && cb(r, p) implies #[trigger] cb(out, p) by {
+        if p == out.len() {
+            is_char_boundary_start_end_of_seq(out);
+        } else if p == 0 {
+            is_char_boundary_start_end_of_seq(out);
+        } else if p < lo {
+            is_char_boundary_iff_not_is_continuation_byte(r, p);
+            assert(out[p] == r[p]);
+            is_char_boundary_iff_not_is_continuation_byte(out, p);
+        } else {
+            assert(out[p] == r[hi]);
+            is_char_boundary_iff_not_is_continuation_byte(r, hi);
+            is_char_boundary_iff_not_is_continuation_byte(out, p);
+        }
+    }
+}
+
+pub proof fn lemma_del(b: Seq<u8>, m: Seq<Range<usize>>, k: int)
+    requires valid_utf8(b), wf_ranges(m, b), 0 <= k <= m.len(),
+    ensures
+        valid_utf8(del_from(b, m, k)),
+        k < m.len() ==> del_from(b, m, k).len() >= m[k].start,
+        k == m.len() ==> del_from(b, m, k) == b,
+        k > 0 ==> del_from(b, m, k).len() >= m[k - 1].end && cb(del_from(b, m, k), m[k - 1].start as int) && cb(del_from(b, m, k), m[k - 1].end as int),
+        forall|p: int| 0 <= p && (k < m.len() ==> p < m[k].start) && (k == m.len() ==> p < b.len())
+            ==> p < del_from(b, m, k).len() && #[trigger] del_from(b, m, k)[p] == b[p],
+        forall|p: int| 0 <= p && (k < m.len() ==> p <= m[k].start) && (k == m.len() ==> p <= b.len()) && cb(b, p)
+            ==> #[trigger] cb(del_from(b, m, k), p),
+    decreases m.len() - k
+{
+    if k < m.len() {
+        lemma_del(b, m, k + 1);
+        let rest = del_from(b, m, k + 1);
+        if k + 1 < m.len() {
+            assert(m[k].end <= m[k + 1].start);
+        }
+        assert(cb(rest, m[k].start as int));
+        assert(cb(rest, m[k].end as int));
+        assert(rest.len() >= m[k].end) by {
+            if k + 1 < m.len() { } else { }
+        }
+        lemma_cut_valid(rest, m[k].start as int, m[k].end as int);
+        if k > 0 {
+            assert(m[k - 1].end <= m[k].start);
+        }
+    } else {
+        if k > 0 { }
+    }
+}
+} // verus!
+verus! {
+/// what the whitespace pass may rely on: ascending, separated, blank-only ranges strictly inside (s, e)
+pub open spec fn block_safe(b: Seq<u8>, s: int, e: int, v: Seq<Range<usize>>) -> bool {
+    &&& forall|i: int| 0 <= i < v.len() ==> s < (#[trigger] v[i]).start < v[i].end <= e && v[i].end <= b.len()
+    &&& forall|i: int| 0 <= i < v.len() ==> all_blank(b, (#[trigger] v[i]).start as int, v[i].end as int)
+    &&& forall|i: int, j: int| 0 <= i < j < v.len() ==> (#[trigger] v[i]).end < (#[trigger] v[j]).start
+}
+
+} // verus!
